@@ -247,6 +247,19 @@ def gen_hist(ctx):
     for i in range(ctx.n(2, 6)):
         out.append({"what": "proj_repeat", "proj": projs[i % 2], "n": r.choice([7, 12, 31]), "repeat": 3, "nprocs": r.choice([2, 3]),
                     "chunk": r.choice([None, 5]), "kind": KINDS[(i + 1) % 3], "seed": r.randrange(1 << 30)})
+    # memory layouts / dtypes of the array arguments: same values, same shape, different strides
+    lay = [("F", "F"), ("T", "T"), ("F", "C"), ("C", "T"), ("strided", "strided"), ("negative", "C"), ("offset", "F"), ("C", "C")]
+    r.shuffle(lay)
+    for i, l in enumerate(lay[:ctx.n(5, 8)] + [r.choice(lay) for _ in range(ctx.n(0, 8))]):
+        out.append({"what": "proj_layout", "proj": projs[i % 2], "shape": r.choice([[5, 7], [4, 9], [3, 4, 5], [8, 3]]), "layout": list(l),
+                    "inverse": i % 2 == 1, "dtype": "float64" if i % 4 != 3 else r.choice(["float32", "int64"]),
+                    "nprocs": r.choice([2, 3]), "chunk": r.choice([None, 4]), "kind": KINDS[i % 3], "seed": r.randrange(1 << 30)})
+    lay2 = [("F", "F"), ("strided", "negative"), ("C", "F"), ("offset", "strided"), ("negative", "offset")]
+    r.shuffle(lay2)
+    for i, l in enumerate(lay2[:ctx.n(3, 5)]):
+        out.append({"what": "kdtree_layout", "ndata": r.choice([20, 50]), "nx": r.choice([9, 23]), "k": [1, 3][i % 2], "layout": list(l),
+                    "dtype": "float64" if i != 1 else "float32", "nprocs": r.choice([2, 3]), "chunk": r.choice([None, 2]),
+                    "kind": KINDS[i % 3], "seed": r.randrange(1 << 30)})
     for i in range(ctx.n(1, 4)):
         out.append({"what": "neighbour_info", "shape": [9, 7] if i % 2 == 0 else [12, 5], "nsrc": 300, "k": [1, 3][i % 2], "nprocs": 2,
                     "segments": 3, "seed": r.randrange(1 << 30)})
@@ -268,11 +281,17 @@ def run_hist(ctx):
         ran += 1
         ctx.case(("hist", repr(c)), nontrivial=True, sample={"history_" + c["what"]: c, "impl": r})
         if not r.get("ok"):
-            key = "C15.mp_equals_sp.repeated_call" if c["what"] != "neighbour_info" else "C15.mp_equals_sp.segments"
+            key = {"neighbour_info": "C15.mp_equals_sp.segments", "proj_layout": "C15.mp_equals_sp.layout.proj",
+                   "kdtree_layout": "C15.mp_equals_sp.layout.kdtree"}.get(c["what"], "C15.mp_equals_sp.repeated_call")
             what = {"kdtree_repeat": "the same cKDTree_MP object queried %d times with %d points each (k=%d): call results equal to "
                                      "scipy cKDTree.query = %s" % (c.get("repeat", 0), c.get("nx", 0), c.get("k", 0), r.get("calls", r)),
                     "proj_repeat": "the same Proj_MP object called %d times with %d points each: call results equal to the "
                                    "single-process projection = %s" % (c.get("repeat", 0), c.get("n", 0), r.get("calls", r)),
+                    "proj_layout": "Proj_MP(%s) on %s coordinate arrays of shape %s with memory layouts %s (inverse=%s) differs from the "
+                                   "single-process projection of the same values" % (c.get("proj"), c.get("dtype"), c.get("shape"),
+                                                                                     c.get("layout"), c.get("inverse")),
+                    "kdtree_layout": "cKDTree_MP(data %s).query(x %s, k=%s) with memory layouts %s differs from scipy cKDTree.query on the "
+                                     "same values" % (c.get("dtype"), c.get("dtype"), c.get("k"), c.get("layout")),
                     "neighbour_info": "kd_tree.get_neighbour_info(nprocs=%d, segments=%d, neighbours=%d) on a %s target differs from "
                                       "nprocs=1: %s" % (c.get("nprocs", 0), c.get("segments", 0), c.get("k", 0), c.get("shape"), r)}[c["what"]]
             ctx.add_failure(key, what, {"oracle": "hist", "case": c})
@@ -286,7 +305,9 @@ def run(ctx):
                 "None/0/negative/1../n/n+1), exhaustive interleavings of enabled workers for small (n, workers) at action and "
                 "at critical-section granularity, malformed stream (negative n, nprocs 0, unknown kind); each execution is "
                 "replayed in the Coq model; plus call histories with real processes (same cKDTree_MP / Proj_MP object called 3 times "
-                "with equal sizes, kd_tree.get_neighbour_info with nprocs=2 and 3 segments) against the single-process results. Non-trivial = at least two slices handed out and at least two workers received one "
+                "with equal sizes, kd_tree.get_neighbour_info with nprocs=2 and 3 segments, and the array arguments of Proj_MP / cKDTree_MP in "
+                "C / Fortran / transposed-view / strided / negative-stride / offset-window layouts, mixed between the two arguments, "
+                "float64 / float32 / int64) against the single-process results. Non-trivial = at least two slices handed out and at least two workers received one "
                 "(or, single worker, at least two slices); distinct = distinct (configuration, executed schedule)")
     import time
     t0 = time.time()
